@@ -16,8 +16,8 @@ class IterBoom(Exception):
     pass
 
 
-def h_fail(l1: int, l2: int, l3: int, k1: int, k2: int, limit: int, q: int, probe: int, silent: bool,
-           j=0, K=1, F=2, kind='iterraise', numtype='float64', bo='little', atom=(), indextype='int64',
+def h_fail(l1: int, l2: int, l3: int, k1: int, k2: int, limit: int, q: int, probe: int,
+           j=0, silent=False, K=1, F=2, kind='iterraise', numtype='float64', bo='little', atom=(), indextype='int64',
            via='iterappend', qneg=None, _gate=None, _small=False):
     """iterappend/append of up to F items; the failure strikes at item j (0-based).
     kinds: iterraise | wrongatom | unconvertible | overflow | vlimit | ilimit"""
@@ -279,8 +279,11 @@ def obligations(tier):
                 for it in its:
                     for j in ((0, 1, 2) if kind == 'iterraise' else (0, 1)):
                         for qn in ((False, True) if K + j >= 2 else (None,)):
-                            splits.append(dict(K=K, F=2, j=j, kind=kind, numtype=nt, bo=bo, atom=at,
-                                               indextype=it, qneg=qn))
+                            for sl in ((False, True) if kind in ('vlimit', 'ilimit') else (False,)):
+                                if not thorough and kind == 'ilimit' and K == 1 and at != ():
+                                    continue
+                                splits.append(dict(K=K, F=2, j=j, kind=kind, numtype=nt, bo=bo, atom=at,
+                                                   indextype=it, qneg=qn, silent=sl))
         if kind in ('wrongatom', 'overflow', 'vlimit'):
             splits.append(dict(K=1, F=1, kind=kind, numtype='float64', bo='little', atom=(2,),
                                indextype='int8' if kind == 'overflow' else 'int64', via='append'))
